@@ -12,6 +12,10 @@ re-validated against lsp.schema.json:
     checkers of C07 / C08 are evaluated on the evolved tables (`lean` evaluation of the same
     definitions whose kernel evaluation C07 / C08 use for the committed model);
   * testdata: the C17 oracle over all vectors of the evolved model.
+  * the whole theorem stack of C01-C03 / C14 (T1, T2, link theorem: every structure and message class of the
+    evolved metamodel is covered by the emitted package, every hook / disambiguator passes the dispatch checker,
+    hence every value valid under the EVOLVED metamodel round-trips) is instantiated by the kernel on the package
+    emitted for the model with every edit kind applied (thorough: for each corpus model too).
 This is a sample of programs, reported as such (evidence lists the edit sequences).  The statement
 over ALL evolutions (an induction over edits on a Lean model of the four generators) is not
 proved: the generators are not modelled in Lean (DESIGN.md, C06).
@@ -181,6 +185,51 @@ def run(ctx):
         tag, desc, d = models[i]
         return i, tag, desc, one_model(ctx, i, tag, desc, d, ctx.seed, schema)
 
+    # The whole theorem stack of C01-C03 / C14 (T1, T2, link theorem, metamodel-level round trip: tools/convprop.py) instantiated on the
+    # package the current generator emits for an evolved metamodel: kernel obligations over the evolved tables.  Quick tier: the model with
+    # every edit kind applied; thorough tier: additionally each corpus model.  Runs beside the per-model oracles.
+    import copy
+    import threading
+    import convprop
+    rich = copy.deepcopy(doc)
+    rich_desc = []
+    for e in evolve.EDITS:
+        try:
+            rich_desc.append(e(rich, random.Random(ctx.seed)))
+        except (StopIteration, IndexError):
+            pass
+    if evolve.discipline_problems(rich):
+        raise Broken(f"the all-edits evolved model is outside the input discipline: {evolve.discipline_problems(rich)[:3]}")
+    stack_models = [("all-edits", "; ".join(rich_desc)[:600], rich)] + ([(t, ds, d) for t, ds, d in models[:len(evolve.EDITS)]] if ctx.thorough() else [])
+    stack_results = []
+
+    def run_stack():
+        for k, (tag, desc, d) in enumerate(stack_models):
+            tmp = common.scratch_dir(f"c06-stack-{k}")
+            try:
+                mf = tmp / "model.json"
+                mf.write_text(json.dumps(d))
+                p = subprocess.run([common.PY, "-B", "-m", "generator", "--model", str(mf), "--plugin", "python", "--output-dir", str(tmp / "py"), "--test-dir", str(tmp / "t")],
+                                   cwd=str(common.REPO), capture_output=True, text=True, env=common.repo_env(ctx.seed))
+                if p.returncode != 0:
+                    stack_results.append((tag, desc, ["python plugin fails: " + (p.stdout + p.stderr)[-300:]], []))
+                    continue
+                for f in ("__init__.py", "_hooks.py", "converters.py", "validators.py"):
+                    shutil.copy(common.REPO / "packages/python/lsprotocol" / f, tmp / "py/lsprotocol" / f)
+                sctx = common.Ctx("C06", ctx.tier, ctx.seed)
+                sctx.work = common.WORK / "C06stack"
+                sctx.work.mkdir(exist_ok=True)
+                try:
+                    problems, loc = convprop.stack_on(sctx, "C06", tmp / "py", mf)
+                except Broken as e:
+                    problems, loc = [f"tables of the evolved package do not build: {e}"], []
+                stack_results.append((tag, desc, problems, loc, sctx))
+            finally:
+                shutil.rmtree(tmp, ignore_errors=True)
+
+    th = threading.Thread(target=run_stack)
+    th.start()
+
     with ThreadPoolExecutor(max_workers=6) as ex:
         for i, tag, desc, fails in ex.map(job, range(len(models))):
             ctx.corr["evaluations"] += 1
@@ -194,7 +243,25 @@ def run(ctx):
                 ctx.violation(f"C06|{tag}|{stage}|{site}", f"evolved model [{desc}]: {stage}: {site}: {detail}",
                               {"edits": desc, "edit_kind": tag, "stage": stage, "site": site, "detail": detail, "input": inp,
                                "how": "tools/evolve.py corpus entry '" + tag + "' applied to generator/lsp.json; python -m generator --model <evolved> --plugin <p>"})
-    ctx.dist = {"evolved_models": [(t, d[:80]) for t, d, _ in models]}
+    th.join()
+    stack_broken = []
+    for res in stack_results:
+        tag, desc, problems, loc = res[:4]
+        if len(res) > 4:
+            for o in res[4].obligations:
+                ctx.obligation(f"[{tag}] {o['name']}", o["ok"], o.get("kind", "theorem"), o.get("detail", ""))
+            ctx.axioms.update({f"[{tag}] {k}": v for k, v in res[4].axioms.items()})
+        else:
+            ctx.obligation(f"theorem stack on evolved model [{tag}]", False, "theorem", problems[0][-600:])
+        ctx.corr["evaluations"] += 1
+        ctx.corr["distinct_nontrivial"] += 1
+        if problems:
+            stack_broken.append({"evolved_model": tag, "edits": desc, "rejected": loc[:12], "first_failed_module": problems[0][-800:]})
+    if stack_broken and not ctx.violations:
+        ctx.violation("C06|stack", "the round-trip theorem stack (T1, T2, link theorem) no longer instantiates on the package generated for an evolved metamodel and the "
+                      "oracles found no failing input: " + json.dumps(stack_broken[0]["rejected"])[:400],
+                      {"broken": stack_broken, "how": "tools/evolve.py edits applied to generator/lsp.json; python -m generator --plugin python; tools/convprop.py stack_on"}, no_input=True)
+    ctx.dist = {"evolved_models": [(t, d[:80]) for t, d, _ in models], "theorem_stack_on": [t for t, _, _ in stack_models]}
     ctx.samples = ctx.samples[:8]
     if machinery:
         raise Broken("machinery failures: " + "; ".join(machinery)[:1500])
